@@ -1,9 +1,13 @@
-// Harness c14 (admission totality): drives the real admission path (types.Validate,
-// mempool.verifyTx / validateTx with system/name/enterprise stateful validation) and the real block
-// executor step (chain.executeTx -> executeGovernanceTx -> Execute{System,Name,Enterprise}Tx) on a real
-// StateDB, every call under recover(), on structured governance payloads; compares the outcome
-// {ok, rej:<class>, panic:<site>} with the Lean model (Aergo.Model.Admit) and evaluates the property
-// itself as oracle: no panic in admission; no panic when executing an admitted transaction.
+// Harness c14 (admission totality): drives the real admission path (types.Validate, mempool.verifyTx /
+// validateTx for EVERY transaction type: sender-state and maximum-fee check, recipient / name resolution, the
+// fee-delegation request to a chain-service component on a real hub, system/name/enterprise stateful validation)
+// and the real block executor step (chain.NewTxExecutor -> executeTx -> contract.Execute (its Go part; the VM is the
+// scripted stub) / executeGovernanceTx -> Execute{System,Name,Enterprise}Tx, with the real voting-power rank and,
+// on raft networks, the real raft MakeConfChangeProposal) in chain-service AND block-factory mode on a real StateDB,
+// every call under recover(); with the fee switched off and on; in states where the system parameters were changed
+// by won parameter votes (extreme values); compares the outcome {ok, rej:<class>, panic:<site>} with the Lean model
+// (Aergo.Model.Admit) and evaluates the property itself as oracle: no panic in admission; no panic when executing
+// an admitted transaction.
 package main
 
 import (
@@ -79,6 +83,25 @@ var siteTable = []struct {
 	{"enterprise.ExecuteEnterpriseTx", "context.Call.Args[1]", -1, "xEnable1"},
 	{"enterprise.ExecuteEnterpriseTx", "context.ArgsAny[0]", -1, "xAny0"},
 	{"enterprise.ExecuteEnterpriseTx", "context.Args[0]", -1, "xCtx0"},
+	{"system.(*VoteResult).Sync", "resultList.Votes[0]", -1, "rSyncTop"},
+	{"system.(*VoteResult).threshold", "Div(total,", -1, "rThreshDiv"},
+	{"types.VoteList.Less", "Candidate[7:]", -1, "tLessSlice"},
+	{"fee.CalcGas", "Div(fee, gasPrice)", -1, "fCalcGas"},
+	{"mempool.(*MemPool).validateTx", "rsp.(message.CheckFeeDelegationRsp)", -1, "pFdRsp"},
+}
+
+// siteByKind: when the text of the panicking line is not one of the expressions above (the line was reformatted or a
+// variable renamed), the function and the kind of runtime panic still identify the site where that pair is unique.
+var siteByKind = map[string]string{
+	"system.(*VoteResult).AddVote/slice": "rAddSlice", "system.(*VoteResult).SubVote/nil": "rSubNil",
+	"system.(*VoteResult).threshold/division": "rThreshDiv", "types.VoteList.Less/slice": "tLessSlice",
+	"fee.CalcGas/division": "fCalcGas", "mempool.(*MemPool).validateTx/conversion": "pFdRsp",
+	"system.(*VoteResult).Sync/index": "rSyncTop", "enterprise.getAdmins/slice": "gAdmins",
+	"system.parseIDForProposal/index": "sParseId0", "types._validateNameTx/index": "tNameCommon0",
+	"name.ValidateNameTx/index": "nVal0", "name.ValidateNameTx/conversion": "nVal0",
+	"enterprise.checkArgs/index": "eCheckArgs0", "enterprise.checkArgs/conversion": "eCheckArgs0",
+	"enterprise.ValidateChangeCluster/index": "eCc0", "enterprise.checkRPCPermissions/index": "eRpcVals0",
+	"enterprise.(*Conf).Validate/index": "cRpcSplit",
 }
 
 // class id of a *known* finding (listed in known_findings.json with status "known"), per stage / site /
@@ -100,6 +123,8 @@ func panicKind(msg string) string {
 		return "slice"
 	case strings.Contains(msg, "nil pointer dereference"):
 		return "nil"
+	case strings.Contains(msg, "divide by zero"), strings.Contains(msg, "division by zero"):
+		return "division"
 	}
 	return "other"
 }
@@ -131,7 +156,7 @@ func srcLines(file string) []string {
 func squash(s string) string { return strings.Join(strings.Fields(s), "") }
 
 // siteOf finds the innermost frame of the aergo module in a panic stack and names its site.
-func siteOf(stack string) string {
+func siteOf(stack, msg string) string {
 	lines := strings.Split(stack, "\n")
 	for i := 0; i+1 < len(lines); i++ {
 		fn := lines[i]
@@ -181,6 +206,9 @@ func siteOf(stack string) string {
 			}
 			return e.site
 		}
+		if st, ok := siteByKind[fn+"/"+panicKind(msg)]; ok {
+			return st
+		}
 		return "?" + fn + ":" + text
 	}
 	return "?"
@@ -198,7 +226,7 @@ func guard(f func() error) (r result) {
 		if e := recover(); e != nil {
 			r.panicked = true
 			r.msg = fmt.Sprint(e)
-			r.site = siteOf(string(debug.Stack()))
+			r.site = siteOf(string(debug.Stack()), r.msg)
 		}
 	}()
 	r.err = f()
@@ -1054,34 +1082,6 @@ func main() {
 	rng := run.Rng
 	dir := filepath.Join(run.Out, "db")
 	thorough := run.Thorough()
-
-	if os.Getenv("C14_LESS39") != "" {
-		wd := newWorld(run, filepath.Join(dir, "less39"), false)
-		rc := func(who int, p string, amt *big.Int) {
-			a, e := wd.runCase(&txCase{who: who, rcpt: []byte(types.AergoSystem), payload: []byte(p), amount: amt, typ: types.TxType_GOVERNANCE, label: "scenario"}, true)
-			fmt.Fprintln(os.Stderr, "LESS39:", p, a, e)
-		}
-		rc(0, `{"Name":"v1stake"}`, coins(10000))
-		rc(1, `{"Name":"v1stake"}`, coins(10000))
-		wd.blockNo += system.StakingDelay + 10
-		rc(0, `{"Name":"v1voteDAO","Args":["BPCOUNT","3"]}`, nil)
-		for i := 0; i < 100; i++ {
-			a, e := wd.runCase(&txCase{who: 1, rcpt: []byte(types.AergoSystem), payload: []byte(`{"Name":"v1voteDAO","Args":["BPCOUNT","`+strings.Repeat("0", 38)+`5"]}`), typ: types.TxType_GOVERNANCE, label: "scenario"}, false)
-			if e != "done" {
-				fmt.Fprintln(os.Stderr, "LESS39 try", i, a, e)
-			}
-		}
-		rc(1, `{"Name":"v1voteDAO","Args":["BPCOUNT","`+strings.Repeat("0", 38)+`5"]}`, nil)
-		{
-			scs, _ := statedb.GetSystemAccountState(wd.sdb.OpenNewStateDB(wd.sdb.GetRoot()))
-			vl, err := system.GetVoteResult(scs, []byte("BPCOUNT"), 100)
-			fmt.Fprintln(os.Stderr, "TALLY", err)
-			for _, v := range vl.Votes {
-				fmt.Fprintln(os.Stderr, "  ", string(v.Candidate), len(v.Candidate), v.GetAmountBigInt())
-			}
-		}
-		return
-	}
 
 	// ---- rune tables and JSON decoding of the model against the Go libraries
 	runeOps(run, rng)
